@@ -45,7 +45,36 @@ def gen(seed, idx, tier):
             {"kind": "sigint", "at": {"point": "line", "func": rnd.choice(["get_induced_vector_potential", "get_induced_vector_potential", "solve_for_observables"]), "ordinal": rnd.randint(20, 600), "stage": "S"}}
         ]
         scn["meta"]["cancel_in_screening"] = True
+    elif rnd.random() < 0.25 and not scn["options"]["skip_time"]:
+        # the run continues from the final state of an earlier screened run (seed solution); the run
+        # itself has screening on (frame 0 is the seed's accepted, self-consistent state) or off (the
+        # induced potential is identically zero in every frame, whatever the seed carried)
+        scn["seed_phase"] = {"steps": rnd.randint(2, 4)}
+        if rnd.random() < 0.4:
+            scn["options"]["include_screening"] = False
+        scn["options"]["save_every"] = rnd.choice([1, 2, 100])
+        scn["faults"] = []
+        return scn
     return scen.maybe_moved(rnd, scen.maybe_restored(rnd, scen.maybe_solve_twice(rnd, scn)), 0.15)
+
+
+def self_consistency_ratio(sim, data, tol):
+    """|stored potential - (mu_0/4pi) sum K a / r of the stored currents| / max|stored| / tol, or None
+    when the potential is at rounding-noise level."""
+    import numpy as np
+
+    from .. import refphys as R
+    from ..checkers import get_ctx
+
+    c = get_ctx(sim)
+    rm = c.rm
+    J = np.asarray(data["supercurrent"]) + np.asarray(data["normal_current"])
+    direct = R.induced_direct(R.site_average(rm, J), c.scales.screening_prefactor(c.lu) * rm.areas * c.xi**2, rm.sites * c.xi, rm.centers * c.xi)
+    A = np.asarray(data["induced_vector_potential"])
+    Amax = max(float(np.max(np.linalg.norm(A, axis=1), initial=0.0)), float(np.max(np.linalg.norm(direct, axis=1), initial=0.0)))
+    if Amax < 1e-10:
+        return None
+    return float(np.max(np.linalg.norm(direct - A, axis=1))) / Amax / tol
 
 
 def post(sim, h):
@@ -69,6 +98,20 @@ def post(sim, h):
         if bad:
             V.append(Violation("frame-vs-accepted-state", f"frame of step {fr['step']} differs from the accepted state after {fr['step']} updates in {bad}", step=fr["step"], cancelled=bool(h.fire_info)))
             break
+    sp = sim.scn.get("seed_phase")
+    if sp is not None and h.frames and h.frames[0]["completed"] and h.frames[0]["step"] == 0:
+        fr0 = h.frames[0]["data"]
+        if o.get("include_screening"):
+            # frame 0 of the continued run is the accepted final step of the (screened) earlier run
+            r = self_consistency_ratio(sim, fr0, o.get("screening_tolerance", 1e-3))
+            if r is not None and r > 10.0 and not sp.get("seed_momentum_dominated"):
+                V.append(Violation("stored-not-self-consistent", f"frame 0 of a run continued from a screened run: stored induced potential differs from the sum over the stored currents by {r:.3g} x tolerance", step=0, momentum_dominated=False, seeded=True))
+        else:
+            import numpy as np
+
+            A0 = np.asarray(fr0["induced_vector_potential"])
+            if np.any(A0 != 0):
+                V.append(Violation("induced-nonzero", f"screening disabled, run continued from a screened run: frame 0 stores a non-zero induced vector potential (max {float(np.max(np.abs(A0))):.3g})", step=0, seeded=True))
     if not o.get("include_screening"):
         return V
     budget = o.get("max_iterations_per_step", 1000)
@@ -92,6 +135,40 @@ def post(sim, h):
 
 
 def run(scn):
+    import copy
+
+    from ..common import Discard
+    from ..engine import run_scenario
+
+    sp = scn.get("seed_phase")
+    if not sp:
+        return _run(scn)
+    s0 = copy.deepcopy(scn)
+    s0.pop("seed_phase")
+    for key in ("solve_twice", "entry", "options_prior_use"):
+        s0.pop(key, None)
+    s0["faults"] = []
+    s0["options"]["include_screening"] = True
+    s0["options"].setdefault("screening_tolerance", 1e-3)
+    s0["options"]["max_iterations_per_step"] = 1000
+    s0["options"]["skip_time"] = 0.0
+    s0["options"]["solve_time"] = scn["options"]["dt_init"] * sp["steps"]
+    s0["observer"] = {"output": None}
+    ck0 = C13Screening()
+    sim0, h0 = run_scenario(s0, checkers=[ck0])
+    try:
+        if h0.outcome != "solution" or h0.solution is None:
+            raise Discard(f"seed run did not complete: {h0.outcome}")
+        S0 = [u for u in h0.stages["S"] if u["out"] is not None]
+        # the known momentum-exit finding of the seed's own last step is not charged to the continued run
+        last_step = S0[-1]["step"] if S0 else None
+        scn["seed_phase"]["seed_momentum_dominated"] = any(v["rule"] == "stored-not-self-consistent" and v["where"].get("step") == last_step for v in sim0.violations)
+        return _run(scn, seed_solution=h0.solution, mesh_from=None)
+    finally:
+        sim0.cleanup()
+
+
+def _run(scn, **kw):
     ck = C13Screening()
     return base.physics_run(
         scn,
@@ -100,6 +177,7 @@ def run(scn):
         lambda h: (scn["options"].get("screening_tolerance"), scn["meta"].get("nonconv", False), scn["meta"].get("cancel_in_screening", False), ck.accepted_steps >= 5),
         extra=lambda h, c: {"iters": ck.iters, "accepted": ck.accepted_steps, "max_kernel_err": ck.max_kernel_err, "max_final_ratio": ck.max_final_err_ratio},
         post=post,
+        **kw,
     )
 
 
